@@ -382,6 +382,14 @@ fn genericise(t: &mut Tree, t2: &mut Tree, kind: &str, c: f64, rng: &mut Rng) {
     });
 }
 
+fn has_wide_chance(t: &Tree) -> bool {
+    match t {
+        Tree::T { .. } => false,
+        Tree::C { kids, .. } => kids.len() >= 2 || kids.iter().any(|k| has_wide_chance(&k.t)),
+        Tree::P { kids, .. } => kids.iter().any(|k| has_wide_chance(&k.t)),
+    }
+}
+
 fn compare_solves(kind: &str, c: f64, a: &Solved, b: &Solved, tol: f64, label: &str, bad: &mut Vec<Value>) {
     let swap = kind == "swap";
     for pl in 0..2 {
@@ -599,6 +607,24 @@ pub fn replay(args: &Args) {
                     compare_solves("scale", c2, &x, &y, 1e-13, &format!("{meth} {name} T={b2} payoffs x 2^{e}"), &mut bad);
                 }
                 (x, y) => bad.push(json!({"class": "panic", "what": "solve failed or panicked", "run": format!("{meth} {name} T={b2} payoffs x 2^{e}"),
+                    "original": x.err(), "transformed": y.err()})),
+            }
+        }
+        // ---- chance weights of the WHOLE tree rescaled by 2^-1040 (subnormal weights; the reciprocal of a node's total is
+        // not a finite number) or 2^1000: small integers times a power of two are exact, so are their sums, and the
+        // quotient weight / total is the same correctly rounded number: evaluation and solution must agree to the last bits
+        if has_wide_chance(&t) {
+            let e = if id % 2 == 0 { -1040 } else { 1000 };
+            let scaled = t.scale_weights(e);
+            let name = PRESETS[(id as usize) % 5];
+            let b = [2u64, 7, 40][(id as usize) % 3];
+            let par = cfr::preset(name);
+            match (solve(&t, &par, b), solve(&scaled, &par, b)) {
+                (Ok(x), Ok(y)) => {
+                    runs += 1;
+                    compare_solves("rescale", 1.0, &x, &y, 1e-13, &format!("{name} T={b} every chance weight x 2^{e}"), &mut bad);
+                }
+                (x, y) => bad.push(json!({"class": "panic", "what": "solve failed or panicked", "run": format!("{name} T={b} every chance weight x 2^{e}"),
                     "original": x.err(), "transformed": y.err()})),
             }
         }
